@@ -99,6 +99,9 @@ func ruleBrkSlide(w *World, r *Report) {
 				return false
 			}
 			isLenCounts := func(v ssa.Value) bool {
+				if cv, isC := v.(*ssa.Convert); isC {
+					v = cv.X // int64(len(b.counts))
+				}
 				c, ok := v.(*ssa.Call)
 				if !ok {
 					return false
@@ -566,6 +569,40 @@ func ruleBrkAdjust(w *World, r *Report) {
 				// carry clause: what the old window counted goes into the new one
 				ms := st.Val.(*ssa.MakeSlice)
 				carried := false
+				// a running sum of the window kept in a field of its own (`total`): a field of the breaker into which some
+				// method stores a value computed from an element of `counts`
+				sumFields := map[string]bool{}
+				for _, m := range w.MethodsOf(w.Named("core", "OutboundBreaker")) {
+					allInstrs(m, func(x ssa.Instruction) {
+						s2, ok := x.(*ssa.Store)
+						if !ok {
+							return
+						}
+						n2, f2, _, ok := fieldOf(s2.Addr)
+						if !ok || typeKey(n2) != ob || f2 == "counts" {
+							return
+						}
+						if dependsOn(s2.Val, func(v ssa.Value) bool {
+							switch t := v.(type) {
+							case *ssa.Index:
+								return isFieldLoad(t.X, ob, "counts")
+							case *ssa.IndexAddr:
+								return isFieldLoad(t.X, ob, "counts")
+							}
+							return false
+						}) {
+							sumFields[f2] = true
+						}
+					})
+				}
+				isSumLoad := func(v ssa.Value) bool {
+					for f := range sumFields {
+						if isFieldLoad(v, ob, f) {
+							return true
+						}
+					}
+					return false
+				}
 				allInstrs(fn, func(x ssa.Instruction) {
 					s2, ok := x.(*ssa.Store)
 					if !ok {
@@ -593,7 +630,7 @@ func ruleBrkAdjust(w *World, r *Report) {
 						case *ssa.Next:
 							return true
 						}
-						return false
+						return isSumLoad(v)
 					}) {
 						carried = true
 					}
@@ -622,6 +659,16 @@ func ruleBrkAdjust(w *World, r *Report) {
 									base = nil // a write
 								}
 							}
+						}
+						if v, isV := x.(ssa.Value); isV && base == nil && isSumLoad(v) {
+							// the running sum stands for the window
+							if reachable(fn, x, in) {
+								nOld++
+								if h, _ := reach(fn, nil, func(y ssa.Instruction) bool { return y == x }, isSlide, nil); h != nil && stale == nil {
+									stale = x
+								}
+							}
+							return
 						}
 						if base == nil || !isFieldLoad(base, ob, "counts") || !reachable(fn, x, in) {
 							return
